@@ -128,11 +128,19 @@ fn gen_apps(t: &mut Tape) -> Vec<AppSpec> {
     let n = 1 + t.choose(4);
     let mut apps: Vec<AppSpec> = vec![];
     for i in 0..n {
-        // repeat an earlier id (with a different cohort) with some probability
+        // repeat an earlier id with some probability: with a different cohort and, half the time, a different day
+        // number, version and fingerprint too (the builder "only once adds the App ... afterward, it just marks" it)
         if i > 0 && t.chance(1, 3) {
             let j = t.choose(i);
             let mut a = apps[j].clone();
             a.cohort = gen_cohort(t);
+            if t.flag() {
+                a.days = t.option(|t| t.u32_biased());
+                if t.flag() {
+                    a.version = gen_version(t);
+                    a.fingerprint = t.option(|t| t.text(10));
+                }
+            }
             apps.push(a);
             continue;
         }
@@ -540,7 +548,7 @@ pub fn run(mut run: Run) -> i32 {
         &[
             "updater names and app ids are generated as visible ASCII (they become HTTP header values); unicode goes into OS fields, cohorts, fingerprints, versions of events and extra fields",
             "extra-field keys never collide with protocol keys (documented misuse)",
-            "repeated ids differ only in their cohort (the statement fixes only the cohort of the first insertion)",
+            "for a repeated id everything taken from the App (cohort, version, fingerprint, day number, extra fields) is that of the first insertion: the statement names the cohort, the doc comments of add_update_check / add_ping / add_event say the App is added only once and afterwards only marked",
             "GUID values are only visible through Debug; shape and equality are checked through it",
         ],
     )
